@@ -240,59 +240,66 @@ def _loop_vars(f):
 
 
 def clause_d(facts, rep, widest, vec_len):
-    """padding: allocate len + K with K >= widest padded load + sentinel; sentinel at len..len+2"""
+    """padding: the padded text buffers are built by evaluating allocateStringBuffer / allocateSchemaStringBuffer
+    (sv/minterp.py with a byte memory; helpers they call are interpreted too) for several text lengths: the block
+    requested from the allocator has len + K bytes with one K for all lengths, K covers the widest padded load, the
+    text is copied in full, and the three bytes behind it are the sentinel (a byte that is no JSON token, the closing
+    quote, a plain byte) - every store inside the block.  Whatever the spelling (index or pointer stores, a shared
+    helper, a named padding constant)."""
+    from ..minterp import Interp, Unsupported, UndefinedBehaviour
     n = 0
     for f in facts.functions:
-        if f.short not in ('allocateStringBuffer', 'allocateSchemaStringBuffer'):
+        if f.short not in ('allocateStringBuffer', 'allocateSchemaStringBuffer') or len(f.params) != 2:
             continue
         rep.fn(f)
         n += 1
-        pid = {p['name']: p['id'] for p in f.params}
+        Ks = set()
+        bad_copy = bad_store = None
+        sent = None
+        TEXT, BASE = 0x2000, 0x100000
+        try:
+            for L in (0, 1, 5, 63, 64, 100):
+                text = bytes((0x41 + (i_ % 23)) for i_ in range(L))
+                req = []
 
-        def sym(e):
-            if e.get('k') == 'ref' and e.get('dk') == 'param':
-                return e['name']
-            if e.get('k') == 'ref' and e.get('dk') == 'local':
-                return 'v:' + e['name']
-            return None
-        env = {}
-        K = None
-        stores = {}
-        copy_ok = False
-        for bid, i, s in f.stmts():
-            s_ = strip(s)
-            if s_.get('k') == 'decl':
-                for v in s_['vars']:
-                    if v.get('init') is not None:
-                        lf = linear(v['init'], sym)
-                        if lf is not None:
-                            env['v:' + v['name']] = lf
-            for e in walk(s_):
-                if e.get('k') == 'call' and e.get('cname') == 'Malloc':
-                    lf = linear(e['args'][0], sym)
-                    if lf is not None:
-                        # substitute locals
-                        lf2 = {}
-                        for k, v in lf.items():
-                            if k in env:
-                                for kk, vv in env[k].items():
-                                    lf2[kk] = lf2.get(kk, 0) + v * vv
-                            else:
-                                lf2[k] = lf2.get(k, 0) + v
-                        if lf2.get('len') == 1 and all(k in ('len', 1) or v == 0 for k, v in lf2.items()):
-                            K = lf2.get(1, 0)
-                if e.get('k') == 'call' and e.get('cname') == 'memcpy':
-                    lf = linear(e['args'][2], sym)
-                    copy_ok = lf == {'len': 1, 1: 0}
-            if s_.get('k') == 'bin' and s_['op'] == '=':
-                l = strip(s_['l'])
-                if l.get('k') == 'sub':
-                    ix = linear(l['idx'], sym)
-                    if ix is not None and ix.get('len') == 1:
-                        stores[ix.get(1, 0)] = cval(s_['r'])
-        if K is None:
-            rep.require(False, 'C02.d: %s: allocation size form not recognised' % f.name)
+                def hook(e, args, env, members):
+                    nm = e.get('cname') or ''
+                    if nm == 'Malloc' and len(args) == 1 and isinstance(args[0], int):
+                        req.append(args[0])
+                        for j_ in range(args[0]):
+                            it.memory[BASE + j_] = 0xCD
+                        it.writable.append((BASE, BASE + args[0]))
+                        return BASE
+                    return None
+                it = Interp(f, facts, call_hook=hook, max_steps=20000)
+                it.memory = {TEXT + i_: b_ for i_, b_ in enumerate(text)}
+                it.writable = []
+                it.written = set()
+                r, env, members, _ = it.run({f.params[0]['id']: TEXT, f.params[1]['id']: L}, {'alloc_': 'ALLOC', 'str_': 0, 'schema_str_': 0})
+                if r not in (0, None) or len(req) != 1:
+                    raise Unsupported('result %r with %d allocation requests' % (r, len(req)))
+                Ks.add(req[0] - L)
+                got = bytes(it.memory[BASE + i_] for i_ in range(L))
+                if got != text or not all((BASE + i_) in it.written for i_ in range(L)):
+                    bad_copy = 'text of %d bytes: the buffer starts with %r' % (L, got[:16])
+                tail = [it.memory.get(BASE + L + k_) if (BASE + L + k_) in it.written else None for k_ in range(3)]
+                extra = sorted(a_ - BASE - L for a_ in it.written if a_ >= BASE + L + 3)
+                if sent is None:
+                    sent = tail
+                elif sent != tail:
+                    bad_store = 'sentinel differs between lengths: %r / %r' % (sent, tail)
+                if extra and min(extra) < 3:
+                    bad_store = 'stores at offsets %s behind the text' % extra[:4]
+        except UndefinedBehaviour as ex:
+            rep.check(False, 'E5.padding', f.qn, 'stores stay inside the requested block', f.loc, 'undefined behaviour: %s' % ex, facts.config)
             continue
+        except Unsupported as ex:
+            rep.require(False, 'C02.d: %s cannot be evaluated: %s' % (f.name, ex))
+            continue
+        if len(Ks) != 1:
+            rep.check(False, 'E5.padding', f.qn, 'Malloc(len + K) with one K', f.loc, 'padding differs between lengths: %s' % sorted(Ks), facts.config)
+            continue
+        K = Ks.pop()
         # Every padded scanner stops at the sentinel: a block load therefore starts at an index <= len
         # (white space / digits / literals: byte 0 of the sentinel is none of them) or <= len + 1
         # (string blocks: the sentinel quote at len + 1 ends the literal).
@@ -300,10 +307,10 @@ def clause_d(facts, rep, widest, vec_len):
                   'padding %d must cover the widest padded-input load (%d bytes starting at index <= len), a string block '
                   '(%d bytes starting at <= len+1) and the 3 sentinel bytes' % (K, widest, vec_len),
                   facts.config)
-        rep.check(copy_ok, 'E5.padding', f.qn, 'memcpy(..., len)', f.loc, 'copy length must be len', facts.config)
-        rep.check(sorted(stores) == [0, 1, 2], 'E5.sentinel', f.qn, 'sentinel offsets %s' % sorted(stores), f.loc,
-                  'sentinel must occupy [len, len+3)', facts.config)
-        b = [stores.get(0), stores.get(1), stores.get(2)]
+        rep.check(bad_copy is None, 'E5.padding', f.qn, 'the whole text is copied', f.loc, bad_copy or '', facts.config)
+        b = sent or [None, None, None]
+        rep.check(bad_store is None and all(x is not None for x in b), 'E5.sentinel', f.qn, 'sentinel offsets %s' % [k_ for k_ in range(3) if b[k_] is not None], f.loc,
+                  bad_store or 'sentinel must occupy [len, len+3)', facts.config)
         structural = set(b'[]{},:" \t\r\n0123456789-+.eEtrufalsn\\')
         rep.check(b[1] == ord('"') and b[0] is not None and b[0] not in structural and b[0] >= 0x20
                   and b[2] is not None and b[2] >= 0x20 and b[2] not in structural,
